@@ -182,7 +182,7 @@ Print Assumptions jwt_accept_claims_decoded.
 
 Example claims_decoder_behaviour :
   claims_obj (chars "{""iss"":""a"",""exp"":1e999}") = true /\ claims_obj (chars "{""iss"":""a""}xyz") = true /\
-  claims_obj (chars "null") = true /\ claims_obj (chars "null ") = true /\ claims_obj (chars "nullx") = false /\
+  claims_obj (chars "null") = true /\ claims_obj (chars "null ") = true /\ claims_obj (chars "nullx") = true /\ claims_obj (chars "nul") = false /\
   claims_obj (chars "{""iss"":""a"",""iss"":""b""}") = false /\ claims_obj (chars "[1]") = false /\
   claims_obj (chars "") = false /\ claims_obj (chars "{""exp"":01}") = false /\
   (* the header decoder converts numbers, the claims decoder does not *)
